@@ -126,6 +126,11 @@ def eng_limbcov(f, sub, prop):
     flt = limbcov.scope_filter(f, prop)
     nfull = limbcov.run_limbcov(f, sub, prop, flt)
     nret = limbcov.run_limbdeps(f, sub, prop, flt)
+    limbcov.run_limbseq(f, sub, prop, flt)
+    if prop in ("C05", "C18"):
+        if limbcov.run_fullwrite(f, sub, prop) < 10:
+            sub.oblige(ok=False)
+            sub.add(Finding("K5d", "anchor", "limbcov K5d: fewer than 10 backend decoders found", config=f.config, prop=prop))
     floor = 120 if flt is None else 20
     if nfull < floor:
         sub.oblige(ok=False)
@@ -161,7 +166,7 @@ def check_C02(tier):
 def check_C04(tier):
     run = Run("C04", tier, level="exploration")
     cfgs = configs_for(tier)
-    stats = run_engines(run, ["tables", "gates"], cfgs, "C04")
+    stats = run_engines(run, ["tables", "gates", "uxcomp", "limbcov"], cfgs, "C04")
     total = sum(s["tables"]["table_entries"] for s in stats.values())
     consts = sum(s["tables"]["constants"] for s in stats.values())
     tabs = sum(s["tables"]["tables"] for s in stats.values())
@@ -170,7 +175,9 @@ def check_C04(tier):
                     "(const-evaluated by rustc on the current tree) equals the multiple of the generator it stands "
                     "for, recomputed with independent affine big-integer arithmetic from the curve equations; plus "
                     "one-line identities of the curve/endomorphism constants; and the generator fast path's result "
-                    "does not depend on the previous value of its output operand (G11). Recoding, windows and endomorphism "
+                    "does not depend on the previous value of its output operand (G11); the 16385-word UX_COMP table of "
+                    "multiples i*2^240*B (used by truncated verification) is re-derived likewise; K5 (limbcov) no whole-value limb "
+                    "operation in the curves' call trees skips a limb. Recoding, windows and endomorphism "
                     "splitting (n*P for all n) are NOT decided.",
         evaluations=total + consts, distinct=total,
         rule="enumerate all entries of all PRECOMP_* statics in each build configuration; an entry is non-trivial "
@@ -199,8 +206,12 @@ TOTALITY_TEXT = {
            "reviewed table entry; caller-establishes-precondition rule for asserts in private helpers; (b) every index, range, "
            "copy-length, division and try_from obligation is discharged by constant folding, interval evaluation, loop-range "
            "reasoning, a dominating length guard, or a requirement met at every call site -- the residue is a frozen per-function "
-           "inventory (tables/site_inventory.json) and only NEW undischarged obligations are reported. NOT decided: arithmetic "
-           "safety of the inventoried sites, loop termination, debug-only overflow checks.",
+           "inventory (tables/site_inventory.json) and only NEW undischarged obligations are reported; (c) R19c every natural loop "
+           "in the crate is iterator-bounded (exit = None of Iterator::next), or a counter loop whose exit compares a local with a "
+           "loop-invariant bound and whose every cycle steps that local by >= 1 towards the bound, or one of the reviewed loops of "
+           "tables/loops.json (lattice reduction, binary search, rejection sampling: termination of those is NOT decided); (d) K2 every "
+           "status word returned is a mask. NOT decided: arithmetic safety of the inventoried sites, termination of the reviewed loops, "
+           "debug-only overflow checks.",
     "C10": "Totality clause of C10 only ('the routines always return: they never panic'): the C19 rules scoped to the call trees of "
            "the *_add_mulgen_vartime combinations and verify_helper_vartime. Equality with the constant-time computation is numeric "
            "and NOT decided.",
@@ -216,7 +227,7 @@ def check_totality(prop):
     def chk(tier):
         run = Run(prop, tier, level="other")
         cfgs = configs_for(tier)
-        stats = run_engines(run, ["totality", "maskdom"] if prop == "C19" else ["totality"], cfgs, prop)
+        stats = run_engines(run, ["totality", "maskdom", "loops"] if prop == "C19" else ["totality", "limbcov"], cfgs, prop)
         nsites = sum(s["totality"].get("sites", 0) for s in stats.values())
         return run.finish(
             explanation=TOTALITY_TEXT[prop],
@@ -292,6 +303,17 @@ def eng_hashreset(f, sub, prop):
 
 
 ENGINES["hashreset"] = eng_hashreset
+
+
+def eng_loops(f, sub, prop):
+    from . import loopprog
+    n = loopprog.run_loops(f, sub, prop)
+    if n < 500:
+        sub.oblige(ok=False)
+        sub.add(Finding("R19c", "anchor", "totality R19c: only %d loops classified (floor 500)" % n, config=f.config, prop=prop))
+
+
+ENGINES["loops"] = eng_loops
 GATE_TEXT["C17"] = ("Two structural clauses of C17: G7a for each hash context type, reset() (transitively) writes every field "
                     "that new() initialises, except the reviewed configuration / dead-buffer fields; G7b every public function "
                     "named *reset* or documented as automatically resetting reaches its return only through a call that resets "
@@ -336,8 +358,8 @@ def check_C18(tier):
 
 CHECKS = {"C17": check_gates("C17", ["hashreset"]), "C18": check_C18, "C20": check_gates("C20", ["maskdom", "muxshape", "limbcov"]), "C05": check_gates("C05", ["gates", "limbcov"]), "C06": check_gates("C06", ["gates", "limbcov"]), "C07": check_gates("C07", ["gates", "limbcov"]),
           "C08": check_gates("C08", ["gates", "limbcov"]), "C09": check_gates("C09", ["gates", "limbcov"]),
-          "C15": check_gates("C15", ["gates", "totality"]), "C16": check_gates("C16", ["gates"]),
-          "C02": check_C02, "C04": check_C04, "C13": check_gates("C13", ["uxcomp", "gates"], level="exploration"),
+          "C15": check_gates("C15", ["gates", "totality", "limbcov"]), "C16": check_gates("C16", ["gates"]),
+          "C02": check_C02, "C04": check_C04, "C13": check_gates("C13", ["uxcomp", "gates", "limbcov"], level="exploration"),
           "C19": check_totality("C19"), "C10": check_totality("C10"), "C11": check_totality("C11")}
 
 
